@@ -631,7 +631,8 @@ pub fn finish(
     let mut total = 0u64;
     let mut seen: BTreeSet<u64> = BTreeSet::new();
     for r in reports {
-      if let (Some(t), Some(i)) = (r.facts.get("c13.enum.total"), r.facts.get("c13.enum.index")) {
+      let key = if property == "C14" { "c14.enum" } else { "c13.enum" };
+      if let (Some(t), Some(i)) = (r.facts.get(&format!("{key}.total")), r.facts.get(&format!("{key}.index"))) {
         total = *t;
         seen.insert(*i);
       }
@@ -639,7 +640,11 @@ pub fn finish(
     if total > 0 {
       exhaustive = seen.len() as u64 == total;
       enumerated = json!({
-        "what": "every mutating disk operation and every hit of every named point of one small history, each under the clean, torn and all-written recovery image",
+        "what": if property == "C14" {
+          "for one small history: a reorganisation of every depth from 1 to savepoint interval x max savepoints (the upper part is beyond what ord classifies as recoverable), landing at every occurrence of every named point of the update (block received, before / between / after the two commits, savepoint deleted / created, after savepoints, commit done)"
+        } else {
+          "every mutating disk operation and every hit of every named point of one small history, each under the clean, torn and all-written recovery image"
+        },
         "positions": total,
         "executed": seen.len(),
         "complete": exhaustive,
